@@ -2,12 +2,14 @@ package c03
 
 import (
 	"fmt"
+	"math/big"
 	"sort"
-	"strconv"
 	"strings"
 
 	"ariga.io/atlas/sql/schema"
 	"ariga.io/atlas/sql/sqlite"
+
+	"verifharness/lib/sqlm"
 )
 
 // normExpr canonicalises an SQL expression for comparison: identifier quotes removed, blanks removed
@@ -113,9 +115,11 @@ func descDefault(e schema.Expr) string {
 			return "v:" + strings.ToLower(v)
 		case len(v) > 2 && (v[0] == 'x' || v[0] == 'X') && v[1] == '\'':
 			return "x:" + strings.ToLower(v)
+		case strings.HasPrefix(v, "0x") || strings.HasPrefix(v, "0X"):
+			return "x:" + strings.ToLower(v) // hex integer: printed as sql("0x…") in HCL
 		}
-		if f, err := strconv.ParseFloat(v, 64); err == nil {
-			return "v:" + strconv.FormatFloat(f, 'g', -1, 64)
+		if n, ok := canonNumber(v); ok {
+			return "v:" + n
 		}
 		return "v:" + x.V // bare string content, white space included
 	case *schema.RawExpr:
@@ -242,4 +246,43 @@ func parts(ps []*schema.IndexPart) string {
 		out = append(out, x)
 	}
 	return strings.Join(out, ",")
+}
+
+// canonNumber returns the canonical spelling of a decimal numeric literal (+5, 1.50, .5, 5., 1.5e3, -0 →
+// 5, 1.5, 0.5, 5, 1500, 0): the VALUE of a numeric default is what a database stores, its spelling is
+// not. Exact (arbitrary precision), so two different large integers never collapse.
+func canonNumber(v string) (string, bool) {
+	if v == "" || strings.ContainsAny(v, "xXpP_ ") || strings.EqualFold(v, "inf") || strings.EqualFold(v, "nan") {
+		return "", false
+	}
+	r, ok := new(big.Rat).SetString(v)
+	if !ok {
+		return "", false
+	}
+	if r.IsInt() {
+		return r.Num().String(), true
+	}
+	return r.RatString(), true
+}
+
+// canonFacts rewrites the numeric defaults of sqlm fact lines ("col … dflt=x:<literal> hidden=…") to
+// their canonical spelling, so that facts of two databases are compared by the value of a numeric
+// default and not by its spelling.
+func canonFacts(f sqlm.Facts) sqlm.Facts {
+	out := make(sqlm.Facts, len(f))
+	for i, l := range f {
+		out[i] = l
+		if !strings.HasPrefix(l, "col ") {
+			continue
+		}
+		a := strings.Index(l, " dflt=x:")
+		b := strings.LastIndex(l, " hidden=")
+		if a < 0 || b < a {
+			continue
+		}
+		if n, ok := canonNumber(l[a+8 : b]); ok {
+			out[i] = l[:a+8] + n + l[b:]
+		}
+	}
+	return out
 }
